@@ -37,7 +37,10 @@ MANIFEST = dict(
          "end-to-end predicate (every phase set = truth up to swap) is evaluated on every output",
     design_ref="DESIGN.md §5 C02",
     note="stage A (allele detection) contract is a theorem only for the logic modelled under C06; here it is checked as a "
-         "seam on every run. trusted: Lean kernel, hand-written models, pysam/htslib, generator's notion of 'well separated'",
+         "seam on every run — since E09 by the Lean precondition itself (rawPreconditionB, sound by checked_precondition_sound) on the "
+         "traced solver input; pipeline_truth_from_raw_reads composes stage A's per-read contract, any read selection and the "
+         "ColumnIterator conversion (C01.mkInst) into ErrFree. trusted: Lean kernel, hand-written models, pysam/htslib, generator's "
+         "notion of 'well separated'",
     technique="Lean 4 proof (zero-cost uniqueness + DP optimality composition) + ground-truth pipeline differential with seam checks",
 )
 
